@@ -118,6 +118,10 @@ func genC17ToChannel(g *Gen) *Scn {
 	// the subscription context is already over (1) or ends while values flow (2): a context that is over is
 	// not an unsubscription, the channel still carries the whole sequence
 	sc.SetInt("deadctx", g.PickInt(0, 0, 0, 1, 2))
+	if g.Bool(0.08) {
+		sc.SetInt("inhandout", 1)
+		sc.SetInt("leave", g.Intn(2))
+	}
 	return sc
 }
 
@@ -573,6 +577,10 @@ func c17NotifMatches(n ro.Notification[int], st Step) bool {
 func runC17ToChannel(e *Env) {
 	sc := e.Sc
 	c17MustBeValid(sc)
+	if sc.Int("inhandout", 0) == 1 {
+		runC17ToChannelInHandOut(e)
+		return
+	}
 	size, cons, k := sc.Int("size", 0), sc.Int("cons", 0), sc.Int("k", 0)
 	slow := dur(sc.Int("slow", 1))
 	spec := sc.Sources[0]
@@ -1055,5 +1063,73 @@ func runC17Materialize(e *Env) {
 	}
 	if plain.Terminal() == 'E' {
 		e.Probe("c17-roundtrip-error")
+	}
+}
+
+// runC17ToChannelInHandOut: the documented way of using ToChannel reads the channel from inside the callback
+// that receives it. Here the observer is a Subscriber made by the caller which (leave=1) unsubscribes itself
+// at the top of that callback and then reads the channel to its end: the channel still carries a prefix of
+// the materialised sequence and IS closed (after the terminal notification or on unsubscription), the read
+// loop ends and Subscribe returns.
+func runC17ToChannelInHandOut(e *Env) {
+	sc := e.Sc
+	spec := sc.Sources[0]
+	src := e.NewSrc(spec)
+	o := ro.ToChannel[int](sc.Int("size", 0))(src.Obs())
+	var got []ro.Notification[int]
+	closedSeen, handed := false, 0
+	var self ro.Subscriber[<-chan ro.Notification[int]]
+	self = ro.NewSubscriber(ro.NewObserver(
+		func(ch <-chan ro.Notification[int]) {
+			handed++
+			if sc.Int("leave", 0) == 1 {
+				self.Unsubscribe()
+			}
+			for {
+				n, ok := simrt.Recv2(ch)
+				if !ok {
+					closedSeen = true
+					return
+				}
+				got = append(got, n)
+			}
+		},
+		func(error) {},
+		func() {},
+	))
+	returned := false
+	e.Go("subscriber", func() { o.Subscribe(self); returned = true })
+	long := dur(c17Span(spec)) + 20*Unit
+	e.SettleFor(long)
+	c17Quiesce(e)
+	if e.K.Capped() {
+		return
+	}
+	describe := func() string {
+		parts := make([]string, len(got))
+		for i, n := range got {
+			parts[i] = c17NotifString(n)
+		}
+		return fmt.Sprintf("ToChannel(%d) over %s script %s, the channel read from inside the hand-out callback (the subscriber unsubscribed itself first: %v): read [%s], closed seen=%v, Subscribe returned=%v", sc.Int("size", 0), spec.Mode, traceN(scriptToN(spec.Script)), sc.Int("leave", 0) == 1, strings.Join(parts, " "), closedSeen, returned)
+	}
+	if handed != 1 {
+		e.Violate("C17", "handout-lost", fmt.Sprintf("%d channel(s) handed out: %s", handed, describe()))
+		return
+	}
+	for i, n := range got {
+		if i >= len(src.Calls) || !c17NotifMatches(n, src.Calls[i].Step) {
+			e.Violate("C17", "content", fmt.Sprintf("notification #%d on the channel is not the source's notification #%d: %s", i, i, describe()))
+			return
+		}
+	}
+	terminates := len(spec.Script) > 0 && spec.Script[len(spec.Script)-1].K != "N"
+	// (a source that never ends keeps feeding the reader: the unsubscription made from inside the callback can
+	// only take effect once the callback has returned, which it does not before the channel is closed)
+	if !closedSeen && terminates {
+		e.Violate("C17", "not-closed", fmt.Sprintf("the channel is neither fed to its terminal notification nor closed, the reader inside the callback waits for ever: %s", describe()))
+		return
+	}
+	if closedSeen && !returned {
+		e.Violate("C17", "actor-left-blocked", "the channel was closed and the callback returned, but Subscribe has not: "+describe())
 	}
 }
